@@ -62,8 +62,18 @@ def run_case(ctx, g, rng):
 
     api, S = ctx.api, probe.S
     d = rng.choice([":", ":", "/", "/", "::", "_", "."])
-    pool_ = PREFIXES + (["ncbi:gene", "obo:go"] if d != ":" and d != "::" else [])
-    names = [p for p in rng.sample(pool_, k=len(pool_)) if d not in p]
+    # (with the delimiter ':' a registered prefix or synonym may itself contain a colon - "ncbi:gene": a request for it
+    #  is split at the FIRST delimiter like everywhere else in the library, so it is answered for the prefix "ncbi";
+    #  seed C17-O: a handler that first tries the router's own, greedy split)
+    with_delim = d == ":" and rng.random() < 0.15
+    pool_ = PREFIXES + (["ncbi:gene", "obo:go"] if (d != ":" and d != "::") or with_delim else [])
+    names = [p for p in rng.sample(pool_, k=len(pool_)) if d not in p or with_delim]
+    if with_delim:
+        names.sort(key=lambda x: ":" in x)  # popped first
+        if rng.random() < 0.5:
+            names.insert(len(names) - 2, "ncbi")  # ... and sometimes its head is a prefix of its own
+            names = [x for i, x in enumerate(names) if x != "ncbi" or i == names.index("ncbi")]
+        S.counters["wl:prefix-containing-the-delimiter"] += 1
     ups = rng.sample(UBASE, k=len(UBASE))
     recs = []
     # (one app in twelve is built from a converter without any record - "pass an empty list if you plan to build the
